@@ -40,7 +40,7 @@ def cases(tier):
     # a delay adapter upstream of a push-based adapter (the adapter's push-time fetch asks for t - delay) next to consumers that run ahead
     for other in ("direct", "scale", "linear"):
         cs.append(dict(consumers=[[["F", 1], ["L"]], KINDS[other]], window=2 if q else 3))
-        cs.append(dict(consumers=[[["F", 2.5], ["L"]], KINDS[other]], window=2 if q else 3, dmax=2.5))
+        cs.append(dict(consumers=[[["F", 2.5], ["L"]], KINDS[other]], window=2 if q else 2.5, dmax=2.5))
     cs.append(dict(consumers=[[["F", 1], ["L"]]], window=3 if q else 4))
     # other time scales (one unit = 2 microseconds / one week) and masked payloads
     for unit in (2, 7 * 86400 * 10**6):
@@ -55,8 +55,10 @@ def cases(tier):
     cs.append(dict(consumers=[[], [["L"]]], trunk=[["R"]], payload="grid", window=2 if q else 3))
     if not q:
         for combo in itertools.combinations_with_replacement(names[:4], 4):
+            if sum(1 for x in combo if KINDS[x] and KINDS[x][0][0] == "F") >= 3:
+                continue  # three or four delayed end points: the normalised state space does not close within the time cap
             cs.append(dict(consumers=[KINDS[x] for x in combo], window=1.5, gaps=(1, 2)))
-    return [dict(cfg=dict(dict(dmax=1), **c, check_retention=True)) for c in cs]
+    return [dict(cfg=dict(dict(dmax=1, max_seconds=900 if q else 3000), **c, check_retention=True)) for c in cs]
 
 
 def run(tier, seed, agg):
